@@ -556,11 +556,12 @@ def partition_interpreted_rule(ctx, rid="R20.12"):
     repo = ctx.repo
     ci = repo.cls(MESHER)
     f = repo.lookup_method(ci, ci.mangle("__Get_partitioned_groupElems"))
-    r = ctx.rule(rid, "partitioner interpreted: owned nodes disjoint and covering, one owner per element, ghosts == elements of other ranks touching an owned node (mid-edge nodes included), group rows == own + ghost rows; TRI6 over 3 ranks, a SEG3 group after it, TRI3 over 2 ranks", min_instances=3)
+    r = ctx.rule(rid, "partitioner interpreted: owned nodes disjoint and covering, one owner per element, ghosts == elements of other ranks touching an owned node (mid-edge nodes included), group rows == own + ghost rows; TRI6 over 3 ranks, a SEG3 group after it, TRI3 over 2 ranks, element tags with gaps", min_instances=4)
 
-    def run_case(label, props, conn, elem_rank, table0):
+    def run_case(label, props, conn, elem_rank, table0, tags=None):
         r.instance(fn=f.qualname)
         ne, npe = len(conn), len(conn[0])
+        tags = list(range(ne)) if tags is None else list(tags)  # gmsh element tags (0-based as the caller passes them)
         connect = XArray((ne, npe), [x for row in conn for x in row], "i")
         created = []
 
@@ -574,7 +575,8 @@ def partition_interpreted_rule(ctx, rid="R20.12"):
                 if t.endswith("getPartitions"):
                     return XArray((1,), [elem_rank[args[1] - 1] + 1], "i")
                 if t.endswith("getElementsByType"):
-                    return (XArray((1,), [kwargs.get("tag", args[1] if len(args) > 1 else None)], "i"), Opaque("nodeTags"))
+                    ent = kwargs.get("tag", args[1] if len(args) > 1 else None)
+                    return (XArray((1,), [tags[ent - 1] + 1], "i"), Opaque("nodeTags"))
             fi = fn if isinstance(fn, FuncInfo) else getattr(fn, "finfo", None)
             if fi is not None and fi.name == "_Create":
                 g = SimpleNamespace(connect=args[1])
@@ -592,7 +594,7 @@ def partition_interpreted_rule(ctx, rid="R20.12"):
         nproc = max(elem_rank) + 1
         table = {k: set(v) for k, v in table0.items()} if table0 else {k: set() for k in range(nproc)}
         try:
-            I.call_function(f, [9, connect, XArray((ne,), list(range(ne)), "i"), Opaque("coordinates"), table], self_obj=XObj(ci, {}))
+            I.call_function(f, [9, connect, XArray((ne,), list(tags), "i"), Opaque("coordinates"), table], self_obj=XObj(ci, {}))
         except XRaise as e:
             r.fail(f.qualname, f"partition:{label}", f.file, f.lineno, "Mesher.__Get_partitioned_groupElems", f"{label}: raises {e}")
             return table
@@ -654,6 +656,9 @@ def partition_interpreted_rule(ctx, rid="R20.12"):
     run_case("SEG3 boundary group processed after the surface group (ownership table already filled)", ("Line 3", 1, 2, 3, Opaque("localCoords"), 2), seg3, [0, 2, 0], t if all(t.values()) else {0: {0, 1, 2, 4, 5, 7, 8, 9, 10, 11, 12}, 1: {6}, 2: {3, 13, 14}})
     tri3 = [[0, 1, 2], [1, 3, 2], [3, 4, 2], [4, 5, 2]]
     run_case("TRI3 fan over two ranks", ("Triangle 3", 2, 1, 3, Opaque("localCoords"), 3), tri3, [0, 0, 1, 1], None)
+    # gmsh numbers the elements entity by entity: the tags of one type are increasing but need not be consecutive (the cap faces
+    # of a prism mesh, the segments of a cracked mesh)
+    run_case("TRI3 fan over two ranks, element tags with gaps (7, 8, 20, 31)", ("Triangle 3", 2, 1, 3, Opaque("localCoords"), 3), tri3, [0, 1, 0, 1], None, tags=[7, 8, 20, 31])
 
 
 def owned_rows_rule(ctx, rid="R20.13"):
